@@ -133,55 +133,152 @@ theorem managed_entries_abstract (h : List Op) (wf : WfHistory h) (p : Path) (hp
       refine ⟨(startsWith_dirPrefix_ne p q hp hqv).mpr hbelow, o, ?_, rfl⟩
       rw [lookup_run]; exact ho
 
-/-! ### 2b. GetManagedObjects over objects with declared properties (C16 x C17) -/
+/-! ### 2b. Objects with declared properties (C16 x C17) -/
+
+/-
+STATED DEVIATIONS / SCOPE of `export_succeeds_if_well_typed`, `managed_eq_spec`, `managed_fails_iff`
+(read them before the theorems; each is a cut of the property text or of the quantifier):
+
+ D1  Classes.  Every instance belongs to one of any number of class chains (`Env.cls`, `Env.W`), each a
+     SINGLE-inheritance chain below DBusObject (C17's scope); "its interfaces" is `getInterfaces()` of the
+     instance's own chain, so objects of different classes under one parent are covered (a model that lists the
+     queried object's interfaces for every child does not satisfy `managed_eq_spec`).  Multiple inheritance,
+     hand-written `IDBusObject`s: outside.
+ D2  "Its readable properties" are the DBusProperty DESCRIPTORS of the chain (`Props.sdeclOf`: every descriptor,
+     bound to its interface by `_cacheInterfaces`), not the `Property` entries of the DBusInterface objects: a
+     `Property('x', 's')` of an interface WITHOUT a descriptor is advertised by Introspect and silently absent
+     from InterfacesAdded / GetManagedObjects; the theorems are content with that (it is what the code does;
+     whether it is right is not decided here).
+ D3  Values and variant types - exactly what is guaranteed, inherited from C17's `GetAllAllowed`: the NAMES in
+     the dict of an interface are exactly its readable descriptors, unconditionally.  The VALUE of an entry is
+     constrained only when the property holds a value of its declared type (`HasTypeSig`): then it is that value
+     (plain); its VARIANT SIGNATURE is the declared one only for the 12 BASIC types.  For `as` and `v`
+     properties the signature is not constrained (an `as` property holding `[]` goes out as `av`), and a
+     property holding a value NOT of its type is not constrained at all if it still marshals (`i` holding 3.7 /
+     True / '12' is reported as 3 / 1 / 12, `s` holding 5 as `i 5`).
+ D4  Failure allowance.  The property text has none; the code answers `Error.Failed` (resp. raises out of
+     exportObject) when collecting or marshalling a property raises.  Stated as: completeness under well-typed
+     values (clause 3 of `managed_eq_spec`, `export_succeeds_if_well_typed`), and `managed_fails_iff`: the reply
+     fails iff the announcement of SOME instance strictly beneath `p` cannot be built - one bad grandchild
+     denies the whole answer at every ancestor, while the reply at the bad object itself (and elsewhere) is fine.
+ D5  Declared property types: the 14 signatures C17 models (12 basic, `as`, `v`) - `Props.Modelled`; no `ai`,
+     `a{sv}`, `(ii)`, `ay`.
+ D6  Histories: remote Sets name an interface and carry a value that can have come off the wire (`GoodOps`, C17's
+     `GoodOp`; a `Set('', …)` is outside); no interface is named '' (`hn`); exports happen at valid object
+     paths (`hv`, enforced by `DBusObject.__init__`).  "Exported" (`absHist`, `specRun`) is what the export CALLS
+     imply given which of them returned; that a call of a well-typed object DOES return is
+     `export_succeeds_if_well_typed`, so the notion is not vacuous.
+-/
+
+open Txdbus.Obj.TreeProps in
+/-- **An export of a well-typed instance succeeds, announces it exactly, and makes it visible.**  After any
+history, if every readable property of instance `n` holds a value of its declared type (C17's specification
+state `S` of `n`'s class), then `exportObject(n)` does not raise, sends exactly one InterfacesAdded naming `n`'s
+path (header and argument) with a dict whose keys are exactly the interfaces of `n`'s class chain, each once,
+each interface dict satisfying C17's `GetAllAllowed` (D2, D3); afterwards `n` is in the table at its path and
+the spec of `Obj/TreeSpec.lean` sees it exported there.  Conversely (contrapositive): an export that raises had a
+readable property unset or ill typed; it sends nothing and changes neither table nor attachment (by definition of
+`step`, `objDict_isSome`).  Uses C17's `reachable_state_refines_spec` and its lemma `opGetAll_allowed` (the
+instance is not attached yet, so `getall_exact` does not apply). -/
+theorem export_succeeds_if_well_typed (E : Env)
+    (hW : ∀ c, ∃ D, Props.elaborate D = some (E.W c)) (hA : ∀ c, Props.AttrConsistent (E.W c))
+    (hM : ∀ c, Props.Modelled (E.W c)) (hc : E.cfg.Sound) (hn : ∀ c, ∀ f ∈ (E.W c).ifaces, f.name ≠ [])
+    (h : List TreeProps.Op) (hg : GoodOps h) (n : Nat)
+    (hty : ∀ sp ∈ (Props.sdeclOf (E.wOf n)).props, sp.readable = true →
+      ∃ v, (Props.specRun E.cfg (E.wOf n) (propHist E (E.cls n) h)).val n sp.iface sp.name = some v ∧
+        PropsSpec.HasTypeSig sp.sig v = true) :
+    ∃ d, (TreeProps.step E (TreeProps.run E h) (.export n)).sent = [.interfacesAdded (E.pathOf n) (E.pathOf n) d] ∧
+      (TreeProps.step E (TreeProps.run E h) (.export n)).raised = false ∧
+      (keys d).Nodup ∧ (∀ i, i ∈ keys d ↔ i ∈ (E.wOf n).ifaces.map (·.name)) ∧
+      (∀ i l, (i, l) ∈ d → PropsSpec.GetAllAllowed (Props.sdeclOf (E.wOf n))
+          (Props.specRun E.cfg (E.wOf n) (propHist E (E.cls n) h)) n i [.retD l]) ∧
+      lookup (TreeProps.run E (h ++ [.export n])).exports (E.pathOf n) = some n ∧
+      exportedAfter (absHist E (h ++ [.export n])) (E.pathOf n) = some (tabObj E n) := by
+  obtain ⟨D, hD⟩ := hW (E.cls n)
+  have hgood : Props.GoodHist (propHist E (E.cls n) h) := goodHist_propHistFrom E _ State.init h hg
+  have hSim := Txdbus.Properties.C17.reachable_state_refines_spec hD (hA _) (hM _) hc hgood
+  rw [← pst_eq E (E.cls n) h] at hSim
+  have hall : ∀ f ∈ (E.wOf n).ifaces, ∃ l, ifaceDict E ((TreeProps.run E h).stOf E n) n f.name = some l ∧
+      PropsSpec.GetAllAllowed (Props.sdeclOf (E.wOf n))
+        (Props.specRun E.cfg (E.wOf n) (propHist E (E.cls n) h)) n f.name [.retD l] := by
+    intro f hf
+    have hG : PropsSpec.GetAllAllowed (Props.sdeclOf (E.wOf n))
+        (Props.specRun E.cfg (E.wOf n) (propHist E (E.cls n) h)) n f.name
+        [Props.opGetAll E.cfg (E.wOf n) ((TreeProps.run E h).stOf E n) n f.name] :=
+      Props.opGetAll_allowed (Props.elaborate_good hD) (hA _) hc hSim n (hn _ f hf)
+    have hG' := hG
+    unfold PropsSpec.GetAllAllowed at hG
+    have hmem : f.name ∈ (Props.sdeclOf (E.wOf n)).ifaces := by
+      simp only [Props.sdeclOf, List.mem_map]; exact ⟨f, hf, rfl⟩
+    rw [if_pos hmem] at hG
+    obtain ⟨l, hl⟩ := hG.2.2 (fun sp hsp hif hr => hif ▸ hty sp hsp hr)
+    simp only [List.cons.injEq, and_true] at hl
+    refine ⟨l, ifaceDict_of_opGetAll E _ n f.name l hl, ?_⟩
+    rw [← hl]; exact hG'
+  have hsome : (objDict E ((TreeProps.run E h).stOf E n) n).isSome = true := by
+    rw [objDict, objDictFrom_isSome, List.all_eq_true]
+    intro f hf
+    obtain ⟨l, hl, _⟩ := hall f hf
+    rw [hl]; rfl
+  cases hd : objDict E ((TreeProps.run E h).stOf E n) n with
+  | none => rw [hd] at hsome; cases hsome
+  | some d =>
+    obtain ⟨d1, d2, d3⟩ := objDict_spec E _ n d hd
+    have hlook : lookup (TreeProps.run E (h ++ [.export n])).exports (E.pathOf n) = some n := by
+      rw [TreeProps.run_append]; simp [TreeProps.step, hd, lookup_setItem]
+    refine ⟨d, by simp [TreeProps.step, hd], by simp [TreeProps.step, hd], d1, d2, fun i l hil => ?_, hlook, ?_⟩
+    · have hi : i ∈ (E.wOf n).ifaces.map (·.name) := (d2 i).mp (List.mem_map.mpr ⟨(i, l), hil, rfl⟩)
+      obtain ⟨f, hf, rfl⟩ := List.mem_map.mp hi
+      obtain ⟨l', hl', hG⟩ := hall f hf
+      have := d3 f.name l hil
+      rw [hl'] at this; cases this
+      exact hG
+    · rw [lookup_run_abs, hlook]; rfl
 
 open Txdbus.Obj.TreeProps in
 /-- **GetManagedObjects reports exactly the exported objects strictly beneath the path, each with exactly
-its interfaces and, per interface, exactly its readable properties with their current values.**
+its interfaces and, per interface, its readable properties with their current values** - within the
+deviations D1-D6 stated above.
 
-Setting: the combined model `Obj/TreeProps.lean` - instances of a declared class chain (C17's `World`,
-hypotheses as in C17: it elaborates, attributes are consistent, declared types are the modelled ones, the
-repaired configuration), every interface named, exported at valid paths; ANY history `h` of exportObject /
-unexportObject / local assignments / remote Sets (the latter well-formed as in C17); any valid path `p`
-(root included) at which something is exported.  `S` is C17's SPECIFICATION state after the history: the
-value most recently assigned to every property.
+Setting: the combined model `Obj/TreeProps.lean`; ANY history `h` of exportObject / unexportObject / local
+assignments / remote Sets; any valid path `p` (root included) at which something is exported.  `S c` is C17's
+SPECIFICATION state of class `c` after the history: the value most recently assigned to every property.
 
-1. the reply is `Error.Failed` or one dictionary;
+1. the reply is `Error.Failed` or one dictionary (true by construction of `handleManaged`; content is in 3 and in
+   `managed_fails_iff`);
 2. ANY dictionary returned has one entry per path, the paths being exactly the spec's `below p` of the
    exported paths; the entry of path `k` belongs to the instance `n` the history makes visible at `k`; its
-   keys are exactly the names of the interfaces of the class chain (DBusObject's Properties interface
-   included), each once; and the dict of interface `i` satisfies C17's `GetAllAllowed` - it lists exactly
-   the readable declared properties of `i` (never a write-only one, none twice, none missing), each one that
-   holds a value of its type with that value, typed as declared (this is `Txdbus.Properties.C17.getall_exact`, used,
-   not re-proved);
+   keys are exactly the names of the interfaces of `n`'s OWN class chain (DBusObject's Properties interface
+   included, with an empty dict), each once; and the dict of interface `i` satisfies C17's `GetAllAllowed`
+   for `n` (names exact; values and variant types as far as D3 says) - this is
+   `Txdbus.Properties.C17.getall_exact`, used, not re-proved;
 3. when every readable property of every instance beneath `p` holds a value of its type, the reply IS a
    dictionary. -/
-theorem managed_eq_spec {D : Props.Decls} (E : Env) (hD : Props.elaborate D = some E.W)
-    (hA : Props.AttrConsistent E.W) (hM : Props.Modelled E.W) (hc : E.cfg.Sound)
-    (hn : ∀ f ∈ E.W.ifaces, f.name ≠ [])
+theorem managed_eq_spec (E : Env)
+    (hW : ∀ c, ∃ D, Props.elaborate D = some (E.W c)) (hA : ∀ c, Props.AttrConsistent (E.W c))
+    (hM : ∀ c, Props.Modelled (E.W c)) (hc : E.cfg.Sound) (hn : ∀ c, ∀ f ∈ (E.W c).ifaces, f.name ≠ [])
     (h : List TreeProps.Op) (hg : GoodOps h) (hv : ∀ n, TreeProps.Op.export n ∈ h → ValidText (E.pathOf n))
     (p : Path) (hp : ValidPath p) (hexp : (exportedAfter (absHist E h) (render p)).isSome = true) :
     let reply := handleManaged E (TreeProps.run E h) (render p)
-    let S := Props.specRun E.cfg E.W (propHist E h)
+    let S := fun c => Props.specRun E.cfg (E.W c) (propHist E c h)
     (reply = .managedFailed ∨ ∃ ents, reply = .managed ents) ∧
     (∀ ents, reply = .managed ents →
       (ents.map (·.1)).Nodup ∧
       (∀ k, k ∈ ents.map (·.1) ↔ ∃ q, q ∈ below p (exportedPaths (absHist E h)) ∧ k = render q) ∧
       ∀ k d, (k, d) ∈ ents → ∃ n, exportedAfter (absHist E h) k = some (tabObj E n) ∧
-        (keys d).Nodup ∧ (∀ i, i ∈ keys d ↔ i ∈ E.W.ifaces.map (·.name)) ∧
-        ∀ i l, (i, l) ∈ d → PropsSpec.GetAllAllowed (Props.sdeclOf E.W) S n i [.retD l]) ∧
+        (keys d).Nodup ∧ (∀ i, i ∈ keys d ↔ i ∈ (E.wOf n).ifaces.map (·.name)) ∧
+        ∀ i l, (i, l) ∈ d →
+          PropsSpec.GetAllAllowed (Props.sdeclOf (E.wOf n)) (S (E.cls n)) n i [.retD l]) ∧
     ((∀ q n, q ∈ below p (exportedPaths (absHist E h)) →
         exportedAfter (absHist E h) (render q) = some (tabObj E n) →
-        ∀ sp ∈ (Props.sdeclOf E.W).props, sp.readable = true →
-          ∃ v, S.val n sp.iface sp.name = some v ∧ PropsSpec.HasTypeSig sp.sig v = true) →
+        ∀ sp ∈ (Props.sdeclOf (E.wOf n)).props, sp.readable = true →
+          ∃ v, (S (E.cls n)).val n sp.iface sp.name = some v ∧ PropsSpec.HasTypeSig sp.sig v = true) →
       ∃ ents, reply = .managed ents) := by
   intro reply S
   have wf : WfHistory (absHist E h) := wf_absHistFrom E State.init h hv
   have hkeys := keys_run_abs E h
   have hI := inv_run E h
-  have hgood : Props.GoodHist (propHist E h) := goodHist_propHistFrom E State.init h hg
-  have hpst := pst_eq E h
-  have hSim := Txdbus.Properties.C17.reachable_state_refines_spec hD hA hM hc hgood
+  have hgood : ∀ c, Props.GoodHist (propHist E c h) := fun c => goodHist_propHistFrom E c State.init h hg
   -- the object at p
   rw [lookup_run_abs] at hexp
   obtain ⟨n0, hn0⟩ : ∃ n0, lookup (TreeProps.run E h).exports (render p) = some n0 := by
@@ -193,19 +290,22 @@ theorem managed_eq_spec {D : Props.Decls} (E : Env) (hD : Props.elaborate D = so
       | some ents => .managed ents | none => .managedFailed := by
     simp only [reply, handleManaged, hn0, hpath]
     cases managedReply E (TreeProps.run E h) (render p) <;> rfl
-  -- what C17 says about one interface dict of an exported instance
-  have hget : ∀ k n i l, lookup (TreeProps.run E h).exports k = some n → i ∈ E.W.ifaces.map (·.name) →
-      ifaceDict E (TreeProps.run E h).pst n i = some l →
-      PropsSpec.GetAllAllowed (Props.sdeclOf E.W) S n i [.retD l] := by
-    intro k n i l hk hi hl
-    have hatt : n ∈ (Props.run E.cfg E.W (propHist E h)).attached := by rw [← hpst]; exact (hI k n hk).1
-    have hi0 : i ≠ [] := by
-      obtain ⟨f, hf, rfl⟩ := List.mem_map.mp hi
-      exact hn f hf
-    have := (Txdbus.Properties.C17.getall_exact hD hA hM hc hgood n i hi0 ((hSim.att n).mp hatt)).1
-    have hstep : (Props.step E.cfg E.W (Props.run E.cfg E.W (propHist E h)) (.getAll n i)).2 = [.retD l] := by
+  -- C17 about one exported instance
+  have hC17 : ∀ k n, lookup (TreeProps.run E h).exports k = some n → ∀ i, i ≠ [] →
+      PropsSpec.GetAllAllowed (Props.sdeclOf (E.wOf n)) (S (E.cls n)) n i
+        [Props.opGetAll E.cfg (E.wOf n) ((TreeProps.run E h).stOf E n) n i] := by
+    intro k n hk i hi0
+    obtain ⟨D, hD⟩ := hW (E.cls n)
+    have hpst := pst_eq E (E.cls n) h
+    have hSim := Txdbus.Properties.C17.reachable_state_refines_spec hD (hA _) (hM _) hc (hgood (E.cls n))
+    have hatt : n ∈ (Props.run E.cfg (E.W (E.cls n)) (propHist E (E.cls n) h)).attached := by
+      rw [← hpst]; exact (hI k n hk).1
+    have := (Txdbus.Properties.C17.getall_exact hD (hA _) (hM _) hc (hgood (E.cls n)) n i hi0
+      ((hSim.att n).mp hatt)).1
+    have hstep : (Props.step E.cfg (E.W (E.cls n)) (Props.run E.cfg (E.W (E.cls n)) (propHist E (E.cls n) h))
+        (.getAll n i)).2 = [Props.opGetAll E.cfg (E.wOf n) ((TreeProps.run E h).stOf E n) n i] := by
       simp only [Props.step, hatt, if_true]
-      rw [← hpst, opGetAll_of_ifaceDict E _ n i l hi hl]
+      rw [← hpst]; rfl
     rw [hstep] at this
     exact this
   refine ⟨?_, ?_, ?_⟩
@@ -231,8 +331,13 @@ theorem managed_eq_spec {D : Props.Decls} (E : Env) (hD : Props.elaborate D = so
         obtain ⟨_, n, hln, hdn⟩ := hk2 k d hkd
         obtain ⟨d1, d2, d3⟩ := objDict_spec E _ n d hdn
         refine ⟨n, by rw [lookup_run_abs, hln]; rfl, d1, d2, fun i l hil => ?_⟩
-        have hi : i ∈ E.W.ifaces.map (·.name) := (d2 i).mp (List.mem_map.mpr ⟨(i, l), hil, rfl⟩)
-        exact hget k n i l hln hi (d3 i l hil)
+        have hi : i ∈ (E.wOf n).ifaces.map (·.name) := (d2 i).mp (List.mem_map.mpr ⟨(i, l), hil, rfl⟩)
+        have hi0 : i ≠ [] := by
+          obtain ⟨f, hf, rfl⟩ := List.mem_map.mp hi
+          exact hn _ f hf
+        have := hC17 k n hln i hi0
+        rw [opGetAll_of_ifaceDict E _ n i l hi (d3 i l hil)] at this
+        exact this
   · intro hall
     rw [hreply]
     suffices hs : ∃ ents, managedReply E (TreeProps.run E h) (render p) = some ents by
@@ -250,21 +355,55 @@ theorem managed_eq_spec {D : Props.Decls} (E : Env) (hD : Props.elaborate D = so
     refine ⟨n, hln, ?_⟩
     rw [objDict, objDictFrom_isSome, List.all_eq_true]
     intro f hf
-    have hi : f.name ∈ E.W.ifaces.map (·.name) := List.mem_map.mpr ⟨f, hf, rfl⟩
-    have hatt : n ∈ (Props.run E.cfg E.W (propHist E h)).attached := by rw [← hpst]; exact (hI _ n hln).1
-    have hG := (Txdbus.Properties.C17.getall_exact hD hA hM hc hgood n f.name (hn f hf) ((hSim.att n).mp hatt)).1
-    have hstep : (Props.step E.cfg E.W (Props.run E.cfg E.W (propHist E h)) (.getAll n f.name)).2 =
-        [Props.opGetAll E.cfg E.W (TreeProps.run E h).pst n f.name] := by
-      simp only [Props.step, hatt, if_true]; rw [← hpst]
-    rw [hstep] at hG
+    have hG := hC17 _ n hln f.name (hn _ f hf)
     unfold PropsSpec.GetAllAllowed at hG
-    have hmem : f.name ∈ (Props.sdeclOf E.W).ifaces := by simpa [Props.sdeclOf] using hi
+    have hmem : f.name ∈ (Props.sdeclOf (E.wOf n)).ifaces := by
+      simp only [Props.sdeclOf, List.mem_map]; exact ⟨f, hf, rfl⟩
     rw [if_pos hmem] at hG
     obtain ⟨l, hl⟩ := hG.2.2 (fun sp hsp hif hr =>
       hif ▸ hall q n hq (by rw [lookup_run_abs, hln]; rfl) sp hsp hr)
     simp only [List.cons.injEq, and_true] at hl
     rw [ifaceDict_of_opGetAll E _ n f.name l hl]
     rfl
+
+open Txdbus.Obj.TreeProps in
+/-- **When GetManagedObjects fails (D4).**  On an exported valid path the reply is `Error.Failed` exactly when
+the announcement of some instance exported STRICTLY BENEATH `p` cannot be built at that moment (`objDict = none`,
+i.e. `Props.exportOk` is false: collecting or marshalling one of its properties raises).  So one bad grandchild
+denies the answer at every ancestor, while a bad object does not spoil the reply at its own path, at its
+descendants, or anywhere it is not beneath. -/
+theorem managed_fails_iff (E : Env) (h : List TreeProps.Op)
+    (hv : ∀ n, TreeProps.Op.export n ∈ h → ValidText (E.pathOf n))
+    (p : Path) (hp : ValidPath p) (hexp : (exportedAfter (absHist E h) (render p)).isSome = true) :
+    handleManaged E (TreeProps.run E h) (render p) = .managedFailed ↔
+      ∃ q n, q ∈ below p (exportedPaths (absHist E h)) ∧
+        lookup (TreeProps.run E h).exports (render q) = some n ∧
+        objDict E ((TreeProps.run E h).stOf E n) n = none := by
+  have wf : WfHistory (absHist E h) := wf_absHistFrom E State.init h hv
+  have hkeys := keys_run_abs E h
+  have hI := inv_run E h
+  rw [lookup_run_abs] at hexp
+  obtain ⟨n0, hn0⟩ : ∃ n0, lookup (TreeProps.run E h).exports (render p) = some n0 := by
+    cases hl : lookup (TreeProps.run E h).exports (render p) with
+    | none => rw [hl] at hexp; cases hexp
+    | some n0 => exact ⟨n0, rfl⟩
+  have hpath : E.pathOf n0 = render p := (hI _ _ hn0).2
+  have hsomek : ∀ k ∈ managedKeys (render p) (TreeProps.run E h).exports,
+      (lookup (TreeProps.run E h).exports k).isSome = true := fun k hk =>
+    (mem_keys_iff _ _).mp ((mem_managedKeys _ _ _).mp hk).1
+  have hnone := managedReply_none_iff E (TreeProps.run E h) (render p) hsomek
+  simp only [handleManaged, hn0, hpath]
+  constructor
+  · intro hf
+    cases hm : managedReply E (TreeProps.run E h) (render p) with
+    | some ents => rw [hm] at hf; cases hf
+    | none =>
+      obtain ⟨k, hk, n, hl, hd⟩ := hnone.mp hm
+      obtain ⟨q, hq, rfl⟩ := (mem_managedKeys_iff_below (absHist E h) wf _ hkeys p hp k).mp hk
+      exact ⟨q, n, hq, hl, hd⟩
+  · rintro ⟨q, n, hq, hl, hd⟩
+    have hk := (mem_managedKeys_iff_below (absHist E h) wf _ hkeys p hp (render q)).mpr ⟨q, hq, rfl⟩
+    rw [hnone.mpr ⟨_, hk, n, hl, hd⟩]
 
 /-! ### 3. UnknownObject -/
 
@@ -419,7 +558,7 @@ open Txdbus.Obj.TreeProps Txdbus.Properties.C17
 /-- C17's two-class example chain (`ro` read-only string and `bc` int32 on org.a, `c` int32 on org.ab), three
 instances at `/a`, `/a/b`, `/a/bc`. -/
 private def exEnv : Env :=
-  { cfg := Props.Cfg.repaired, W := exWorld,
+  { cfg := Props.Cfg.repaired, W := fun _ => exWorld, cls := fun _ => 0,
     pathOf := fun n => if n = 0 then ['/', 'a'] else if n = 1 then ['/', 'a', '/', 'b'] else ['/', 'a', '/', 'b', 'c'] }
 
 private def exOps : List TreeProps.Op :=
@@ -443,8 +582,9 @@ theorem managed_example_paths_valid : ∀ n, TreeProps.Op.export n ∈ exOps →
   rcases hn with rfl | rfl | rfl <;> decide
 
 /-- All hypotheses of `managed_eq_spec` hold for `/a` after `exOps` ... -/
-example := managed_eq_spec exEnv exWorld_elab exWorld_attrConsistent exWorld_modelled repaired_sound
-  (by decide) exOps managed_example_ops_good managed_example_paths_valid [['a']] (by decide) (by decide)
+example := managed_eq_spec exEnv (fun _ => ⟨exDecls, exWorld_elab⟩) (fun _ => exWorld_attrConsistent)
+  (fun _ => exWorld_modelled) repaired_sound (fun _ => (by decide : ∀ f ∈ exWorld.ifaces, f.name ≠ [])) exOps managed_example_ops_good
+  managed_example_paths_valid [['a']] (by decide) (by decide)
 
 /-- ... and the reply is the dictionary one expects: `/a/b` with the value 7 written by the remote Set (the
 Set of the read-only `ro` was refused), `/a/bc` with the value 10 assigned after the export; org.a's
@@ -460,6 +600,54 @@ example :
              (Props.propsIfaceName, [])])] := by
   decide
 
+
+/-! Two classes under one parent, and a failing reply. -/
+
+private def sZ : Str := "org.z".toList
+private def sQ : Str := "q".toList
+
+/-- A second class: one interface org.z with one read-only string property `q`. -/
+private def exDecls2 : Props.Decls :=
+  [ { ifaces := [⟨sZ, [(sQ, ⟨sQ, ['s'], .read, .no⟩)]⟩], descs := [⟨"p_q".toList, sQ, none⟩] } ]
+
+private def exWorld2 : Props.World := (Props.elaborate exDecls2).getD ⟨[], [], []⟩
+
+theorem managed_example_world2 :
+    Props.elaborate exDecls2 = some exWorld2 ∧ Props.AttrConsistent exWorld2 ∧ Props.Modelled exWorld2 ∧
+      ∀ f ∈ exWorld2.ifaces, f.name ≠ [] := by
+  refine ⟨by decide, ?_, ?_, by decide⟩
+  · unfold Props.AttrConsistent; decide
+  · unfold Props.Modelled; decide
+
+/-- Instance 0 (`/a`) and 2 (`/a/bc`) are of C17's example class, instance 1 (`/a/b`) of the second class. -/
+private def exEnv2 : Env :=
+  { cfg := Props.Cfg.repaired, W := fun c => if c = 0 then exWorld else exWorld2, cls := fun n => if n = 1 then 1 else 0,
+    pathOf := exEnv.pathOf }
+
+private def exOps2 : List TreeProps.Op :=
+  [.assign 0 "p_bc".toList (.int 1), .assign 0 "p_c".toList (.int 2), .assign 0 "p_ro".toList (.str ['x']),
+   .assign 1 "p_q".toList (.str ['y']),
+   .assign 2 "p_bc".toList (.int 8), .assign 2 "p_c".toList (.int 9), .assign 2 "p_ro".toList (.str ['z']),
+   .export 0, .export 1, .export 2]
+
+/-- Each child is reported with the interfaces of ITS OWN class (D1) ... -/
+example :
+    handleManaged exEnv2 (TreeProps.run exEnv2 exOps2) ['/', 'a'] =
+      .managed
+        [(['/', 'a', '/', 'b'], [(sZ, [(sQ, ['s'], .str ['y'])]), (Props.propsIfaceName, [])]),
+         (['/', 'a', '/', 'b', 'c'],
+            [(sA, [(sBC, ['i'], .int 8), (sRO, ['s'], .str ['z'])]), (sAB, [(sC, ['i'], .int 9)]),
+             (Props.propsIfaceName, [])])] := by
+  decide
+
+/-- ... and one child whose property went bad after its export makes the parent's reply fail (D4), while the
+reply at the bad object's own path is a (here empty) dictionary. -/
+example :
+    handleManaged exEnv2 (TreeProps.run exEnv2 (exOps2 ++ [.assign 1 "p_q".toList .none])) ['/', 'a'] = .managedFailed ∧
+    handleManaged exEnv2 (TreeProps.run exEnv2 (exOps2 ++ [.assign 1 "p_q".toList .none])) ['/', 'a', '/', 'b'] =
+      .managed [] := by
+  decide
+
 end ManagedExample
 
 end Txdbus.C16
@@ -472,9 +660,12 @@ end Txdbus.C16
 #print axioms Txdbus.C16.interface_dict_complete
 #print axioms Txdbus.C16.table_objects_sendable
 #print axioms Txdbus.C16.managed_entries_abstract
+#print axioms Txdbus.C16.export_succeeds_if_well_typed
 #print axioms Txdbus.C16.managed_eq_spec
+#print axioms Txdbus.C16.managed_fails_iff
 #print axioms Txdbus.C16.managed_example_ops_good
 #print axioms Txdbus.C16.managed_example_paths_valid
+#print axioms Txdbus.C16.managed_example_world2
 #print axioms Txdbus.C16.isPair_iff
 #print axioms Txdbus.C16.classify_ordinary_iff
 #print axioms Txdbus.C16.ping_answered_everywhere
